@@ -571,9 +571,9 @@ def run(ctx):
     rng = ctx.rng
     hand_cases(ctx)
 
-    n_pos = ctx.n(260, 2500)
-    n_trunc = ctx.n(14, 80)
-    n_flip = ctx.n(10, 40)
+    n_pos = ctx.n(700, 4000)
+    n_trunc = ctx.n(40, 150)
+    n_flip = ctx.n(24, 60)
     flip_limit = 2000 if ctx.thorough else 200
     done_trunc = done_flip = 0
     for t in range(n_pos):
